@@ -1085,6 +1085,7 @@ evbuffer_add_buffer_reference(struct evbuffer *outbuf, struct evbuffer *inbuf)
 		/* There might be an empty chain at the start of outbuf; free
 		 * it. */
 		evbuffer_free_all_chains(outbuf->first);
+		ZERO_CHAIN(outbuf);
 	}
 	if (APPEND_CHAIN_MULTICAST(outbuf, inbuf) < 0) {
 		result = -1;
